@@ -16,6 +16,7 @@
 //verif:obligation C11.a reservation caps on every history of 3 (thorough 4) RESERVE requests (real handleReserve + constraints.Reserve) from 3 peers over 2 IPv4 addresses with symbolic clock advances, relayed-source flag and ACL answers, caps MaxReservations / MaxReservationsPerIP in 1..2: after every request the number of unexpired reservations never exceeds the total cap nor the per-IP cap, a refused request creates no reservation, a request over a relayed connection or denied by the ACL is refused, a granted reservation is tagged, and a disconnect drops the peer's reservation
 //verif:obligation C11.b every exit of handleConnect (span / memory refusal, relayed source, malformed peer, ACL denial, no reservation, circuit caps, stream open failure, service / memory refusal on the stop stream, stop handshake write / read / type / status failure, hop response write failure): the per-peer circuit counters, hop tags, the span and its memory are back to their previous values; a circuit is granted only if the destination holds a reservation, the source did not arrive over a relay, the ACL allows it and both peers are below MaxCircuits; after a granted circuit ends everything is restored too
 //verif:obligation C11.c data limit: on a limited relay each direction forwards at most Limit.Data bytes (both directions are limited) and the copy loop accounts exactly the bytes the sink accepted; copyWithBuffer never reports more than was written, flags impossible write counts, and stops at the first error
+//verif:obligation C11.d Relay.disconnected for every connectedness the network may report after a connection closed (not connected, connected, cannot connect, limited = only relayed connections left): the peer's reservation and its entries in the cap accounting disappear unless the peer is still directly connected; other peers' reservations are untouched
 //verif:bound 3 peers, 2 IPv4 addresses, caps 1..2, history 3 (4); one CONNECT per run with all stage outcomes symbolic; copy kernel: <= 2 (thorough 3) reads of <= 4 bytes with symbolic (n, err) on both sides
 //verif:stub host / connection manager / stream / scope / span / ACL are harness stub types; protobuf readers and writers, handleError / writeResponse / makeReservationMsg are hooked with symbolic outcomes; time.Now and manet.ToIP substituted at their call sites; net.IP.String injective stub in the symbolic run
 //verif:outside ASN caps (IPv6 only), voucher signing, stream deadlines actually ending a circuit, expiry GC racing with disconnect notifications
@@ -530,4 +531,48 @@ func VerifC11cCopy() {
 	} else {
 		vCover("copy-error")
 	}
+}
+
+// ---- C11.d ----
+
+type vC11netK struct {
+	network.Network
+	state network.Connectedness
+}
+
+func (n vC11netK) Connectedness(peer.ID) network.Connectedness { return n.state }
+
+func VerifC11dDisconnected() {
+	defer vC11remove()
+	vC11install()
+	h := &vC11host{cm: &vC11cm{tags: map[string]int{}}}
+	rc := Resources{ReservationTTL: time.Hour, MaxReservations: 2, MaxReservationsPerIP: 2, MaxReservationsPerASN: 100}
+	r := vC11relay(h, rc)
+	r.acl = &vC11acl{reserve: true}
+	vC11now = time.Unix(0, 1<<40)
+	vC11relayed, vC11respFail = false, false
+	st := r.handleReserve(&vC11stream{conn: &vC11conn{p: vC11peers[0], addr: vC11addrs[0]}})
+	vAssume(st == pbv2.Status_OK)
+	st = r.handleReserve(&vC11stream{conn: &vC11conn{p: vC11peers[1], addr: vC11addrs[0]}})
+	vAssume(st == pbv2.Status_OK)
+	states := []network.Connectedness{network.NotConnected, network.Connected, network.CannotConnect, network.Limited}
+	state := states[vCase(4)]
+	r.disconnected(vC11netK{state: state}, &vC11conn{p: vC11peers[0]})
+	_, still := r.rsvp[vC11peers[0]]
+	counted := false
+	for _, pe := range r.constraints.total {
+		if pe.Peer == vC11peers[0] {
+			counted = true
+		}
+	}
+	if state == network.Connected {
+		vCover("another-direct-connection-remains")
+		vAssert(still && counted, "the reservation stays while the peer is still directly connected")
+	} else {
+		vCover("no-direct-connection-remains")
+		vAssert(!still, "the reservation disappears when the peer has no direct connection left (a relayed connection does not keep it)")
+		vAssert(!counted, "a dropped reservation no longer counts against the caps")
+	}
+	_, other := r.rsvp[vC11peers[1]]
+	vAssert(other, "another peer's reservation is untouched")
 }
